@@ -53,7 +53,10 @@ pub(super) fn existing_log_files(
             ));
         }
     } else {
-        result.push(file_spec.as_pathbuf(None));
+        let path = file_spec.as_pathbuf(None);
+        if path.exists() {
+            result.push(path);
+        }
     }
     result
 }
